@@ -114,7 +114,7 @@ def run(ctx):
             by.setdefault(c["dec"], []).append(c)
         pairs = []
         for d, cs in sorted(by.items()):
-            for _ in range(min(6000, 12 * len(cs))):
+            for _ in range(min(2500, 5 * len(cs))):
                 a, b = rnd.choice(cs), rnd.choice(cs)
                 if (a["field"], a["inst"]) != (b["field"], b["inst"]):
                     pairs.append(dict(a, field2=b["field"], inst2=b["inst"], mut2=b["mut"]))
